@@ -153,23 +153,25 @@ class Xunitary(Compiler):
         regrefs = [(cmd.reg[0].ind, cmd.reg[1].ind) for cmd in B]
 
         # merge S2gates
-        if len(regrefs) > half_n_modes:
-            for mode, indices in list_duplicates(regrefs):
-                r = 0
-                phi = 0
+        # (one pair at a time: merging changes the positions of the remaining commands)
+        while len(regrefs) > half_n_modes:
+            mode, indices = next(list_duplicates(regrefs))
+            r = 0
+            phi = 0
 
-                for k, i in enumerate(sorted(indices, reverse=True)):
-                    removed_cmd = B.pop(i)
-                    r += removed_cmd.op.p[0]
-                    phi_new = removed_cmd.op.p[1]
+            for k, i in enumerate(sorted(indices, reverse=True)):
+                removed_cmd = B.pop(i)
+                r += removed_cmd.op.p[0]
+                phi_new = removed_cmd.op.p[1]
 
-                    if k > 0 and phi_new != phi:
-                        raise CircuitError("Cannot merge S2gates with different phase values.")
+                if k > 0 and phi_new != phi:
+                    raise CircuitError("Cannot merge S2gates with different phase values.")
 
-                    phi = phi_new
+                phi = phi_new
 
-                i, j = mode
-                B.insert(indices[0], Command(ops.S2gate(r, phi), [registers[i], registers[j]]))
+            i, j = mode
+            B.insert(indices[0], Command(ops.S2gate(r, phi), [registers[i], registers[j]]))
+            regrefs = [(cmd.reg[0].ind, cmd.reg[1].ind) for cmd in B]
 
         meas_seq = [C[-1]]
         seq = GaussianUnitary().compile(C[:-1], registers)
